@@ -108,6 +108,36 @@ int main(int argc, char **argv) {
         if (v == 1) { group(v, 2, near32 - 40); group(v, 2, r32); }         /* IETF: stay below the limit */
         else { group(v, 2, near32); group(v, 2, 0xffffffffffffffffULL - 1 - vrng_below(&R, 14)); group(v, 2, vrng_u64(&R)); }
     }
+    /* ONE long xor_ic call (9 MiB + 777 bytes of zeros) whose 64-bit block counter crosses a multiple of 2^32 somewhere in the
+     * first 6 MiB: whatever the library does between the pieces it hands to a backend (slices, batches, a split counter), block j of
+     * the output is the keystream block under counter ic + j.  128 bytes are recorded just before / at / after the crossing, at every
+     * MiB multiple, at the power-of-two distances after the crossing, at the end and at random offsets, each judged by the oracle as
+     * the keystream started at that block (stream_at).  IETF: 32-bit counter, no crossing allowed - random start, same sampling. */
+    {
+        const size_t LL = ((size_t) 9 << 20) + 777;
+        unsigned char *zero = (unsigned char *) mmap(NULL, LL, PROT_READ, MAP_PRIVATE | MAP_ANONYMOUS | MAP_NORESERVE, -1, 0);
+        unsigned char *lo = (unsigned char *) mmap(NULL, LL, PROT_READ | PROT_WRITE, MAP_PRIVATE | MAP_ANONYMOUS | MAP_NORESERVE, -1, 0);
+        if (zero != MAP_FAILED && lo != MAP_FAILED) {
+            static const int VS[] = { 0, 1, 2, 3, 6 };
+            for (int vi = 0; vi < 5; vi++) { int v = VS[vi]; unsigned char k[32], n[24], ic8[8]; vrng_bytes(&R, k, 32); vrng_bytes(&R, n, 24);
+                uint64_t b = 1 + vrng_below(&R, 98000);                         /* blocks before the crossing */
+                uint64_t hi = (uint64_t) (1 + vrng_below(&R, 3)) << 32;          /* crossing of 2^32, 2^33 or 3 * 2^32 */
+                uint64_t ic = v == 1 ? (vrng_u64(&R) & 0x7fffffff) : hi - b;
+                int r = call(v, 2, lo, zero, LL, n, ic, k);
+                size_t X = (size_t) b * 64, offs[64]; int no = 0;
+                offs[no++] = 0; offs[no++] = X - 64; offs[no++] = X; offs[no++] = X + 64; offs[no++] = LL - 128; offs[no++] = (LL - 128) & ~(size_t) 63;
+                for (size_t mi = 1; mi <= 9; mi++) { offs[no++] = mi << 20; if (mi & 1) offs[no++] = (mi << 20) - 64; }
+                for (int j = 12; j <= 23; j += 1) if (X + ((size_t) 1 << j) + 128 <= LL) offs[no++] = X + ((size_t) 1 << j);
+                for (int j = 0; j < 10; j++) offs[no++] = (size_t) vrng_below(&R, (LL - 128) / 64) * 64;
+                for (int o = 0; o < no; o++) { size_t off = offs[o] & ~(size_t) 63; if (off + 128 > LL) off = (LL - 128) & ~(size_t) 63;
+                    uint64_t bi = ic + off / 64; for (int i = 0; i < 8; i++) ic8[i] = (unsigned char) (bi >> (8 * i));
+                    fprintf(v_out, "{\"op\":\"stream_at\",\"v\":\"%s\",\"form\":0,\"ret\":%d,\"maxlen\":128,\"long_ic\":%zu,", vname[v], r, off); v_emit_bytes("k", k, 32); fputc(',', v_out); v_emit_bytes("n", n, vnonce[v]); fputc(',', v_out);
+                    v_emit_bytes("ic", ic8, 8); fputc(',', v_out); v_emit_bytes("bytes", lo + off, 128); fputs("}\n", v_out); }
+                madvise(lo, LL, MADV_DONTNEED); }
+        }
+        if (zero != MAP_FAILED) munmap(zero, LL);
+        if (lo != MAP_FAILED) munmap(lo, LL);
+    }
     /* IETF limit: ic + ceil(len/64) > 2^32 must be refused through the misuse handler */
     static const struct { uint32_t ic; unsigned long long len; } lim[] = { { 0xffffffffu, 64 }, { 0xffffffffu, 65 }, { 0xffffffffu, 1 }, { 0xffffffffu, 0 }, { 0xfffffffeu, 128 }, { 0xfffffffeu, 129 },
         { 0xfffffff0u, 16 * 64 }, { 0xfffffff0u, 16 * 64 + 1 }, { 0xfffffff0u, 15 * 64 + 63 }, { 0xffffff00u, 256 * 64 }, { 0xffffff00u, 256 * 64 + 1 }, { 0xfffff000u, 4096 * 64 + 64 }, { 0, 4096 } };
